@@ -145,7 +145,9 @@ def run_case(case):
     digests = {}
     keep_dir = None
     stored_ref = None
-    top = tempfile.mkdtemp(prefix="c05-")
+    top = shardlib.other_filesystem_dir("c05-") if case["sseed"] % 5 == 0 else None
+    obs["datasets_on_another_file_system_than_TMPDIR"] = int(top is not None)
+    top = top or tempfile.mkdtemp(prefix="c05-")
     try:
         for i, order in enumerate(orders):
             strategy = ("on disk", "in memory")[i % 2]
